@@ -388,7 +388,8 @@ _RE_S = re.compile(r'^<<"S", "((?:[^"\\]|\\.)*)", (".*")>>$')
 
 
 def model_check(insts: list[dict], cfg: str = "DistExec.cfg", timeout: float = 1500,
-                shards: int | None = None, workers: int = 2) -> dict:
+                shards: int | None = None, workers: int = 2,
+                module: str = "DistExec") -> dict:
     """DistExec over a batch of exported instances.  -> {"clauses": id -> set,
     "states": id -> set of canonical states (instances with "dump"), "nstates",
     "ntrans", "wall"}"""
@@ -405,7 +406,7 @@ def model_check(insts: list[dict], cfg: str = "DistExec.cfg", timeout: float = 1
         files.append(p)
 
     def one(p: str) -> tlc.TLCResult:
-        return tlc.run_tlc("DistExec", cfg, env={"BATCH_FILE": p, **JVM}, workers=workers,
+        return tlc.run_tlc(module, cfg, env={"BATCH_FILE": p, **JVM}, workers=workers,
                            timeout=timeout, heap="3g")
     t0 = time.time()
     with ThreadPoolExecutor(max_workers=len(files)) as ex:
